@@ -231,7 +231,10 @@ impl C06 {
                                 (false, true) => "ordinary-checkpoint-on-block-without-commitments",
                                 (false, false) => "ordinary-checkpoint",
                             };
-                            let sig = format!("C06:checkpoint-root-not-computable-after-full-scan:{kind}");
+                            // with an anchor-retention policy in force the wallet keeps (retained) checkpoints
+                            // BELOW the ordinary pruning window, which is what known finding F26 needs
+                            let policy = if h.cfg.retention.is_some() && h.cfg.nu6_3_activation().map_or(false, |a| *id >= a) { "retention-active" } else { "no-retention" };
+                            let sig = format!("C06:checkpoint-root-not-computable-after-full-scan:{kind}:{policy}");
                             self.viol(h, r, &sig, format!("{} checkpoint {id} is retained, every block of the chain is scanned, yet its root cannot be computed: {}", pool.name(), why.chars().take(160).collect::<String>()));
                         }
                     }
